@@ -30,6 +30,14 @@ def spec(tier):
         other = dict(algo="priority", pools=1, multi=True, duration=6, pipes=[pipe("chain3", prio=1, at=0, durs=[1, 1, 1]), pipe("single", prio=3, at=1, durs=[3])])
         obs.append(CH(name=f"back_to_back_{algo}", harness="rsim.back_to_back", sym=dict(cpus=I(1, 6), ma=I(1, 9)),
                       fixed=dict(cfg=cfg, other=other, ram=8 if oc else 30, da=1, mb=3), timeout=1200, native_points=4))
+    # ... and with the real WorkloadGenerator: run B in a fresh copy of the package vs. after run A (other tick rate / seed /
+    # scheduler) - state kept on module-level or shared objects across runs shows here
+    for (ab, bb) in (((1, 1), (1, 1)), ((0, 0), (1, 1)), ((3, 3), (1, 1)), ((1, 1), (3, 3))) if th else (((1, 1), (1, 1)),):
+        for tb in ((2, 5) if th else (5,)):
+            for ta in (range(1, 9) if th else (1, 2, 4)):       # one obligation per earlier tick rate (they run in parallel)
+                obs.append(CH(name=f"generated_history_a{ab[0]}_b{bb[0]}_tps{ta}_{tb}", harness="hist.generated_history",
+                              sym=dict(cpus=I(10, 40)),      # (the seeds stay concrete: numpy's SeedSequence rejects a symbolic int)
+                              fixed=dict(tps_a=ta, tps_b=tb, seed_a=3, seed_b=7, algo_a=ab[0], algo_b=bb[0]), timeout=900, native_points=3))
     # the generated workload depends only on workload parameters, tick rate and seed
     for seed in ((1, 7, 42) if th else (7,)):
         for tps in (1, 10):
@@ -40,10 +48,13 @@ def spec(tier):
     cfg = dict(algo="priority", pools=1, multi=True, duration=10, pipes=pipes)
     for w in ("suspend", "fail", "ok"):
         obs.append(twin(f"ids_{w}", "rsim.id_independence", dict(cpus=I(1, 6), ma=I(1, 9)), dict(cfg=cfg, mode="desc", cstart=7, ram=30, da=2, mb=3), w))
+    for w in ("query_work", "completed", "history_ran"):
+        obs.append(twin(f"generated_history_{w}", "hist.generated_history", dict(cpus=I(10, 40)),
+                        dict(tps_a=2, tps_b=5, seed_a=3, seed_b=7, algo_a=1, algo_b=1), w))
     obs.append(twin("workload_indep", "c15.workload_independence", dict(pools=I(1, 9)), dict(seed=7, tps=1, cpus=2, ram=3, multi=False, oc=True, algo_i=3), "x"))
     return PropSpec(
         property_id="C07", obligations=obs,
-        functions=["run_simulator", "Scheduler.__init__", "all shipped schedulers", "Executor.run_one_tick", "Container.__init__ (global container counter)", "Node.__init__ (uuid4 identifiers)",
+        functions=["run_simulator", "Scheduler.__init__", "all shipped schedulers", "Executor.run_one_tick", "Segment / WorkloadGenerator module state (fresh package import vs. after a history)", "Container.__init__ (global container counter)", "Node.__init__ (uuid4 identifiers)",
                    "WorkloadGenerator.__init__", "WorkloadGenerator.generate_pipelines", "WorkloadGenerator.run_one_tick"],
         bounds={"identifier_assignments": "ascending (reference) vs " + ", ".join(modes) + " integer-valued UUIDs; container counter starting at 1 vs 7",
                 "pipelines": 3, "ticks": 10, "cpus_per_pool": "1..6", "generator_ticks": 40},
